@@ -558,4 +558,113 @@ theorem C12_legal_moves_with_api {tbl : List Route} (hg : allGuarded tbl = true)
 example : apiOk exOn .powerOff = true ∧ apiOk exOff .powerOn = true ∧ apiOk exInstant .powerOn = false ∧
     apiOk { exInstant with st := .booting } .reset = false := by decide
 
+/-! ### the `startup` route: accepted iff OFF -/
+
+/-- **`startup` is accepted iff the node is OFF** (under a guarded table that has the route): it answers `success` exactly
+from OFF; from ON, BOOTING and SHUTTING_DOWN it answers `failure` and changes nothing — so it can neither cancel a
+shutdown in progress nor cut a boot short, whatever the durations. With `C12_gen_validators` (the validator's meaning)
+and `C12_gen_routes_guarded` / `C12_gen_schema_routes_guarded` (which validator sits on which route) this is a statement
+about the code of every node class. -/
+theorem C12_startup_accepted_iff_off {tbl : List Route} (hg : allGuarded tbl = true)
+    (hin : (tbl.find? (fun r => r.key == "startup")).isSome = true) (n : Node) (sub : Sub) :
+    ((request tbl n "startup" sub).2 = .success ↔ n.st = .off) ∧
+    (n.st ≠ .off → request tbl n "startup" sub = (n, .failure)) := by
+  constructor
+  · constructor
+    · intro hs
+      by_cases hoff : n.st = .off
+      · exact hoff
+      · rw [C12_startup_only_from_off hg n hoff sub, hin] at hs
+        cases hs
+    · intro hoff
+      exact (C12_boot_timing hg n hoff sub hin).1
+  · intro hoff
+    rw [C12_startup_only_from_off hg n hoff sub, hin]; rfl
+
+/-- for the regenerated table of every node class -/
+theorem C12_startup_accepted_iff_off_all_classes (cls : String) (tbl : List Route)
+    (hc : (cls, tbl) ∈ Gen.Power.classTables) (n : Node) (sub : Sub) :
+    (request tbl n "startup" sub).2 = .success ↔ n.st = .off := by
+  have hg := C12_all_classes_guarded cls tbl hc
+  have hw := List.all_eq_true.mp C12_gen_routes_wellformed (cls, tbl) hc
+  have hin : (tbl.find? (fun r => r.key == "startup")).isSome = true := by
+    simp only [Bool.and_eq_true, List.all_eq_true] at hw
+    have := hw.1 "startup" (by simp)
+    rw [List.find?_isSome]
+    simp only [List.contains_iff_mem, List.mem_map] at this
+    obtain ⟨r, hr, hk⟩ := this
+    exact ⟨r, hr, by simp [hk]⟩
+  exact (C12_startup_accepted_iff_off hg hin n sub).1
+
+example : (request baseRoutes { exOn with st := .shuttingDown, upDur := 0 } "startup" (.opaque .success)).2 = .failure := by decide
+
+/-! ### 2. "it neither processes … traffic": no frame gets past the interface of a node that is not ON -/
+
+/-- the layers a frame climbs: the wire (a `Link` or the `AirSpace`), an interface's `receive_frame`, the node's
+`receive_frame` (and its helpers), the session manager, the software manager, a service's / application's `receive` -/
+inductive Layer | wire | iface | node | sess | swmgr | software
+deriving DecidableEq, Repr
+
+def layerEdge : String → Option (Layer × Layer)
+  | "wire>iface" => some (.wire, .iface)
+  | "iface>node" => some (.iface, .node)
+  | "node>sess" => some (.node, .sess)
+  | "sess>swmgr" => some (.sess, .swmgr)
+  | "swmgr>software" => some (.swmgr, .software)
+  | _ => none
+
+/-- the regenerated hand-over calls as edges between layers, with "is under the caller's `if self.enabled`" -/
+def entryEdges : List (Layer × Layer × Bool) :=
+  Gen.Power.frameEntrySites.filterMap (fun e => (layerEdge e.2.1).map (fun p => (p.1, p.2, e.2.2.2)))
+
+/-- layers reachable from `from_` along the given edges (6 layers: 6 rounds suffice) -/
+def reachLayers (edges : List (Layer × Layer)) : Nat → List Layer → List Layer
+  | 0, acc => acc
+  | k + 1, acc => reachLayers edges k (acc ++ (edges.filter (fun e => acc.contains e.1 && !acc.contains e.2)).map (·.2))
+
+/-- **every frame entry point of every node class is behind an enabled-interface test.** Over the regenerated table of
+ALL calls of `receive_frame(` / `receive_payload_from_session_manager(` / software `.receive(` under `simulator/` and
+`game/` (the extractor refuses a call it cannot classify): (a) every call is a hand-over to the next layer up or a call
+of the base-class method; (b) every hand-over from an interface to its node — `NIC`, `RouterInterface`, `SwitchPort`,
+the wireless router's `WirelessAccessPoint`, and the wireless base class — sits under `if self.enabled:`; (c) a layer
+above the interface is entered only from the layer right below it; hence (d) with the guarded hand-overs removed,
+nothing above the interface layer is reachable from the wire: a frame reaches a node's `receive_frame`, its session
+manager, its software manager or any `receive` of its software ONLY through an interface that is enabled. -/
+theorem C12_gen_frame_entry_points :
+    Gen.Power.frameEntrySites.all (fun e => e.2.1 == "super" || (layerEdge e.2.1).isSome) = true ∧
+    entryEdges.all (fun e => !(e.1 == .iface && e.2.1 == .node) || e.2.2) = true ∧
+    entryEdges.all (fun e => (e.2.1 == .iface && e.1 == .wire) || (e.2.1 == .node && e.1 == .iface) ||
+      (e.2.1 == .sess && e.1 == .node) || (e.2.1 == .swmgr && e.1 == .sess) || (e.2.1 == .software && e.1 == .swmgr)) = true ∧
+    (reachLayers ((entryEdges.filter (fun e => !e.2.2)).map (fun e => (e.1, e.2.1))) 6 [.wire]).all
+      (fun l => l == .wire || l == .iface) = true ∧
+    [Layer.iface, .node, .sess, .swmgr, .software].all
+      (fun l => (reachLayers (entryEdges.map (fun e => (e.1, e.2.1))) 6 [.wire]).contains l) = true ∧
+    ((Gen.Power.frameEntrySites.filter (fun e => e.2.1 == "iface>node")).map (·.1)) =
+      ["WirelessNetworkInterface.receive_frame@airspace.py", "NIC.receive_frame@host_node.py",
+       "RouterInterface.receive_frame@router.py", "SwitchPort.receive_frame@switch.py",
+       "WirelessAccessPoint.receive_frame@wireless_router.py"] := by decide
+
+/-- how far up a frame handed to interface `i` of node `n` can get: past the interface only if the interface passes it
+(what the node, the session manager and the software then do with it is C06/C08/C13's) -/
+def frameClimbs (n : Node) (i : Nat) : List Layer :=
+  if nicPasses n i then [.iface, .node, .sess, .swmgr, .software] else [.iface]
+
+/-- **a node that is not ON processes no traffic.** For any route table, any start satisfying the interface invariant
+(every loaded node does: `C12_load_inv`) and any sequence of requests, ticks, frames, pre-timesteps, duration changes,
+episode set-ups and direct API calls: while the node is not ON, a frame arriving at any of its interfaces stops at the
+interface — the node's `receive_frame`, its session manager, its software manager and the `receive` of its services and
+applications are not reached (`C12_gen_frame_entry_points`: there is no other way in). -/
+theorem C12_not_on_frame_stops_at_interface (tbl : List Route) (n : Node) (ops : List XOp) (h1 : NicInv n) (h2 : OffInvS n)
+    (hne : (xrun tbl n ops).st ≠ .on) (i : Nat) : frameClimbs (xrun tbl n ops) i = [.iface] := by
+  have hoff := (C12_inv_all_entry_points tbl n ops h1 h2).1 hne
+  have : nicPasses (xrun tbl n ops) i = false := by
+    unfold nicPasses
+    cases hc : (xrun tbl n ops).nics[i]? with
+    | none => rfl
+    | some c => exact hoff c (List.mem_of_getElem? hc)
+  simp [frameClimbs, this]
+
+example : frameClimbs exOn 0 = [.iface, .node, .sess, .swmgr, .software] ∧ frameClimbs (run baseRoutes exOn [shutdownOp]) 0 = [.iface] := by
+  decide
+
 end Primaite.Power
